@@ -20,11 +20,14 @@ What is proved here is the bookkeeping that makes "idle" mean "empty" in the mod
 The "each destroyed exactly once, also when destructors free other pool objects" clause of `Reset` is
 property C19's theorem `C19_freeall_each_once` (pool level, `lean/MorfuseModel/Props/C19.lean`).
 
-Not proved (compared with the real engine on every run by tools/props/c13.py, with the trace monitor
-"idle ⇒ every pool, the timer and the queue are empty; a live thread ⇒ not idle; after Reset all
-pools are empty and scripts compile and run as if new"): that every live thread belongs to exactly
-one live instance through every cascade of the machine (the thread ↔ instance-chain invariant).  The
-machine-level invariant about threads, timer and listener tables *is* proved; see the last section.
+The first part of this file is that bookkeeping layer.  The later sections prove the machine-level
+statements: the thread / timer / table invariant, the instance-list invariant (every thread with a VM is in
+the chain of its listed instance), "every record is a complete idle thread between host operations", the
+idle-flag clauses, Reset and recompile, and the creation / destruction ledgers - all for states reachable by
+host operations (no save/load), programs of class `ProgOK`, modulo the machine's fuel.  Compared with the
+real engine on every run by tools/props/c13.py (pool counts, idle flag, marker order after every command,
+trace monitor "idle => every pool, the timer and the queue are empty; a live thread => not idle"): that the
+engine performs exactly the machine's steps.
 -/
 namespace Morfuse.Sched
 
